@@ -49,3 +49,43 @@ def tagged(tag, msg):
     from buidl.hash import hash_challenge  # noqa: the active (pure-python) back end
     from buidl.phash import tagged_hash
     return tagged_hash(tag, msg)
+
+
+# ---------------------------------------------------------------------------- C03
+from buidl.pecc import FieldElement, Point, S256Field  # noqa: E402
+
+
+def fe_op(op, a, b, p):
+    x, y = FieldElement(a, p), FieldElement(b, p)
+    if op == "add":
+        r = x + y
+    elif op == "sub":
+        r = x - y
+    elif op == "mul":
+        r = x * y
+    else:
+        r = b * x          # __rmul__ with an integer coefficient
+    return r.num, r.prime
+
+
+def fe_new(a, p):
+    return FieldElement(a, p).num
+
+
+def s256_div(a, b):
+    return (S256Field(a) / S256Field(b)).num
+
+
+def parse_then_sec(b):
+    p = S256Point.parse(b)
+    return p.sec(len(b) == 33)
+
+
+def sec_then_parse(pub, compressed):
+    q = S256Point.parse(pub.sec(compressed))
+    return q.x.num, q.y.num
+
+
+def xonly_then_parse(pub):
+    q = S256Point.parse(pub.xonly())
+    return q.x.num, q.y.num
